@@ -226,6 +226,17 @@ class Models:
             v = v.val
         return v
 
+    def narrow(self, ip, v):
+        """Optional value whose None-ness is already decided by the path condition."""
+        while isinstance(v, SOpt):
+            if ip.path.entails(z3.Not(v.isnone)):
+                v = v.val
+            elif ip.path.entails(v.isnone):
+                return None
+            else:
+                return v
+        return v
+
     def order(self, ip, op, l, r, node=None):
         l, r = self.unopt(ip, l), self.unopt(ip, r)
         if l is None or r is None:
@@ -518,13 +529,13 @@ class Models:
             rows, cols = l.shape
             R_ = self.as_seq(r)
             return SSeq(rows, lambda i: self.sum_of(ip, SSeq(cols, lambda j: SReal(
-                z3.Select(l.arr, self.len_term(i), self.len_term(j)) * real_term(R_.get(j)), "npfloat"), "ndarray", "row-terms")),
+                sym.msel(l.arr, self.len_term(i), self.len_term(j)) * real_term(R_.get(j)), "npfloat"), "ndarray", "row-terms")),
                 "ndarray", "M@v")
         if r2 and not l2:
             rows, cols = r.shape
             L_ = self.as_seq(l)
             return SSeq(cols, lambda j: self.sum_of(ip, SSeq(rows, lambda i: SReal(
-                real_term(L_.get(i)) * z3.Select(r.arr, self.len_term(i), self.len_term(j)), "npfloat"), "ndarray", "col-terms")),
+                real_term(L_.get(i)) * sym.msel(r.arr, self.len_term(i), self.len_term(j)), "npfloat"), "ndarray", "col-terms")),
                 "ndarray", "v@M")
         raise Unsupported("matrix @ matrix")
 
@@ -701,16 +712,16 @@ class Models:
             if isinstance(i, slice) or isinstance(j, slice):
                 if isinstance(j, slice) and j == slice(None, None, None) and not isinstance(i, slice):
                     it = self.len_term(self.index_in_bounds(ip, i, rows))
-                    return SSeq(cols, lambda c: SReal(z3.Select(o.arr, it, self.len_term(c)), "npfloat"), "ndarray", "row")
+                    return SSeq(cols, lambda c: SReal(sym.msel(o.arr, it, self.len_term(c)), "npfloat"), "ndarray", "row")
                 if isinstance(i, slice) and i == slice(None, None, None) and not isinstance(j, slice):
                     jt = self.len_term(self.index_in_bounds(ip, j, cols))
-                    return SSeq(rows, lambda r_: SReal(z3.Select(o.arr, self.len_term(r_), jt), "npfloat"), "ndarray", "col")
+                    return SSeq(rows, lambda r_: SReal(sym.msel(o.arr, self.len_term(r_), jt), "npfloat"), "ndarray", "col")
                 raise Unsupported("general 2-D slicing")
             if isinstance(i, (SSeq, SArr)) or isinstance(j, (SSeq, SArr)):
                 raise Unsupported("fancy 2-D indexing read")
             it = self.len_term(self.index_in_bounds(ip, i, rows))
             jt = self.len_term(self.index_in_bounds(ip, j, cols))
-            return SReal(z3.Select(o.arr, it, jt), "npfloat")
+            return SReal(sym.msel(o.arr, it, jt), "npfloat")
         raise Unsupported("row indexing of 2-D array")
 
     def setitem(self, ip, o, k, v, node=None):
@@ -733,7 +744,7 @@ class Models:
                     return ip.schema.scatter_assign2(ip, o, i, j, v, node)
                 it = self.len_term(self.index_in_bounds(ip, i, o.shape[0]))
                 jt = self.len_term(self.index_in_bounds(ip, j, o.shape[1]))
-                o.arr = z3.Store(o.arr, it, jt, real_term(v))
+                o.arr = sym.mstore(o.arr, it, jt, real_term(v))
                 return
         if isinstance(o, SpecFn) and o.meta.get("setitem") is not None:
             return o.meta["setitem"](ip, k, v)
